@@ -2,6 +2,7 @@
 from sim import history
 
 PROP = 'C05'
+TECHNIQUE = 'deterministic simulation: invariant monitor on every byte and name written at rest (needle search, structure, nonce freshness) over seeded histories incl. eventually consistent store'
 LEVEL = 'exploration'
 RULE = ('one case = a seeded history (init, add-key shared/independent/clone, snapshots with notes, delete, clean) on an encrypted '
         'repository (both ciphers, all key sizes, several nonce sizes, all hashes); a monitor records every byte uploaded, every '
